@@ -230,12 +230,31 @@ def finalize(db):
         f" and implies(slot in {D}, {D}[slot] == {D0}[slot][1:len({D0}[slot])])"
         f" and forall(T, 'datetime', implies(T != slot, ((T in {D}) == (T in {D0})) and implies(T in {D}, {D}[T] == {D0}[T]))))")
 
-    # __update_delayed (bounded stand-in only): moving due entries keeps every message in exactly one place
+    # __update_delayed keeps every message in exactly one place (assuming it was so before): carried through the outer loop
+    # as facts about the CURRENT state - the waiting queue has no duplicates, the lists not moved yet are disjoint from it,
+    # its elements are neither held nor dead; one iteration appends one whole list that was disjoint from everything else
     cu = db.contracts[C + "__update_delayed"]
     cu.ensures = dict(cu.ensures)
     pre = " and ".join(f"({v})" for v in single_copy(Q, old=True).values())
     for k, v in inv.items():
         cu.ensures[f"single_copy_kept:{k}"] = f"implies({pre}, {v})"
+    S, D0_ = f"{Q}.simple", f"old({Q}.delayed)"
+    l0 = cu.loops[0]
+    l0.invariant = dict(l0.invariant)
+    l0.invariant["sc_waiting_once"] = f"implies({pre}, forall_int(i, forall_int(j, implies(0 <= i and i < j and j < len({S}), at({S}, i) != at({S}, j)))))"
+    l0.invariant["sc_unmoved_lists_not_waiting"] = (
+        f"implies({pre}, forall(T, 'datetime', forall_int(k, forall_int(j, implies(T in {D0_} and T not in where and 0 <= k and k < len({D0_}[T])"
+        f" and 0 <= j and j < len({S}), at({D0_}[T], k) != at({S}, j))))))")
+    l0.invariant["sc_waiting_not_held_not_dead"] = (
+        f"implies({pre}, forall_int(j, implies(0 <= j and j < len({S}), at({S}, j) not in {Q}.processing"
+        f" and forall_int(d, implies(0 <= d and d < len({Q}.dead), at({S}, j) != at({Q}.dead, d))))))")
+    l0.invariant["sc_held_and_dead_untouched"] = f"{Q}.processing == old({Q}.processing) and {Q}.dead == old({Q}.dead)"
+    cu.bounded = None           # every clause is proved; the former stand-in stays as an ADDITIONAL native check (it also
+    cu.bounded_extra = "inmem_update_delayed"   # catches rewrites of the loops that the sidecar cannot follow)
+    cu.bounded_clauses = []
+    cu.note = ""
+    cu.covers = {"moved_something_with_the_invariant": f"({pre}) and len({S}) > len(old({S}))",
+                 "kept_something": f"nonempty_map({Q}.delayed)"}
 
     cf = db.contracts[C + "finish"]
     cf.variants = {
